@@ -514,12 +514,23 @@ def rule_envelope(ctx, rule_id="C08.4-envelope"):
     ctx.analysed(fn)
     prm = fn.params()
     ctx.require(len(prm) >= 2, "Serializer.unserialize(payload, isBinary) signature changed")
+    def _counter_update(node):
+        """self._x += E, or the same spelled self._x = self._x + E"""
+        if isinstance(node, ast.AugAssign):
+            return norm.text(node.target).startswith("self._")
+        return isinstance(node, ast.Assign) and len(node.targets) == 1 and norm.text(node.targets[0]).startswith("self._") and isinstance(node.value, ast.BinOp) \
+            and norm.text(node.value.left) == norm.text(node.targets[0])
+
     class _NoStats(ast.NodeTransformer):  # statistics counters (self._x += ...) are bookkeeping outside the envelope: not modelled
         def visit_AugAssign(self, node):
-            return ast.copy_location(ast.Pass(), node) if norm.text(node.target).startswith("self._") else node
+            return ast.copy_location(ast.Pass(), node) if _counter_update(node) else node
+
+        def visit_Assign(self, node):
+            return ast.copy_location(ast.Pass(), node) if _counter_update(node) else node
     import copy
     body = [_NoStats().visit(copy.deepcopy(x)) for x in fn.node.body if not (isinstance(x, ast.Expr) and isinstance(x.value, ast.Constant))]
-    counters = {norm.text(x.target) for x in ast.walk(fn.node) if isinstance(x, ast.AugAssign)}
+    counters = {norm.text(x.target if isinstance(x, ast.AugAssign) else x.targets[0]) for x in ast.walk(fn.node) if isinstance(x, (ast.AugAssign, ast.Assign)) and
+                (isinstance(x, ast.AugAssign) or _counter_update(x))}
     reads = {norm.text(x) for x in ast.walk(fn.node) if isinstance(x, ast.Attribute) and norm.text(x).startswith("self._") and not isinstance(x.ctx, ast.Store)}
 
     def cell(raws, decoder_raises=False, is_binary=None, binary=False):
